@@ -384,11 +384,43 @@ def shards(tier: str, seed: int) -> list[dict[str, Any]]:
     for n in range(1, e2e_max + 1):
         for flavour in FLAVOURS[:-1]:
             out.append({"kind": "e2e", "flavour": flavour, "n": n, "seed": seed})
+    # beyond the enumerated sizes and magnitudes: ONE ensemble of n = 20 (three fixed orderings, no / each single / two
+    # double failures, four percentiles), and n <= 4 with ranking values of magnitude 2^55 (adding 1 changes nothing there)
+    out.append({"kind": "large", "n": 20, "seed": seed})
+    out.append({"kind": "huge", "n": 4, "seed": seed})
+    return out
+
+
+LARGE_PERMS = [list(range(20)), list(range(19, -1, -1)), [(7 * i + 3) % 20 for i in range(20)]]
+
+
+def extra_cases(kind: str, seed: int) -> list[dict[str, Any]]:
+    out = []
+    if kind == "large":
+        masks = [0] + [1 << i for i in range(20)] + [(1 << 0) | (1 << 19), (1 << 7) | (1 << 8)]
+        for flavour in ("obj1", "con_upper", "con_lower", "con_eq"):
+            for perm in LARGE_PERMS:
+                for mask in masks:
+                    for p in (0.25, 0.35, 0.5, 1.0):
+                        failed = np.array([(mask >> i) & 1 == 1 for i in range(20)])
+                        out.append(case_of("direct", flavour, 20, perm, failed, p, seed))
+    else:
+        for n in (2, 3, 4):
+            for flavour in ("obj1", "con_upper", "con_lower"):
+                for perm in itertools.permutations(range(n)):
+                    for mask in range(2**n):
+                        for p in (0.5, 0.75, 1.0, (n - 1) / n + 0.01):
+                            failed = np.array([(mask >> i) & 1 == 1 for i in range(n)])
+                            out.append({**case_of("direct", flavour, n, perm, failed, p, seed), "scale": 2.0**55})
     return out
 
 
 def run_shard(shard: dict[str, Any]) -> core.ShardResult:
     rec = Recorder(shard)
+    if shard["kind"] in ("large", "huge"):
+        for case in extra_cases(shard["kind"], shard["seed"]):
+            rec.add((shard["kind"], case["flavour"], case["n"], tuple(case["perm"]), tuple(case["failed"]), case["percentile_hex"]), case, run_case(case))
+        return rec.finish()
     n, seed = shard["n"], shard["seed"]
     flavour = shard.get("flavour")
     table = value_table(n, seed)
@@ -441,7 +473,7 @@ def run_case(case: dict[str, Any]) -> Judgement:
     n = case["n"]
     p = float.fromhex(case["percentile_hex"])
     table = value_table(n, case["seed"])
-    badness = table[list(case["perm"])]
+    badness = table[list(case["perm"])] * case.get("scale", 1.0)
     failed = np.array(case["failed"], dtype=bool)
     if case["kind"] == "e2e2":
         return e2e_two_filters(n, tuple(case["perm"]), failed, p, case["seed"])
